@@ -304,9 +304,11 @@ func c05(p *P) {
 			r.Check(strings.Join(a, " ") == "&$3.Justification.Vote.SupplementalData &$3.Vote.SupplementalData", "C05.R4", "validateJustification: compares the message's supplemental data with the justification's", p.c.InstrPos(cs.Instr), strings.Join(a, " vs "), "compares "+strings.Join(a, " with "))
 		}
 		// full messages: justification value key equals the expected key
-		fullKey := union(callResult("", "bytes.Equal", "", -1, avFalse), noHit)
+		fullKey := union(callResult("", "bytes.Equal", "", -1, avFalse), cmpRel("", `ECChain\.Key\(\$3\.Justification\.Vote\.Value\)`, `(\}\.Key|gpbft\.ECChainKey)$`, RelNE), noHit)
 		fullKey.Name = "justification value key = expected key (full message)"
 		inj := fullKey.Match(vj)
+		nKeyCmp := len(callsTo(vj, false, "bytes.Equal")) + len(cmpRel("", `ECChain\.Key\(\$3\.Justification\.Vote\.Value\)`, `(\}\.Key|gpbft\.ECChainKey)$`, RelNE).Match(vj))
+		r.Check(nKeyCmp > 0, "C05.R4", "validateJustification: the justification's value key is compared with the table's key", p.c.Pos(vj.Pos()), fmt.Sprint(nKeyCmp), "no comparison between the justification's value key and the expected key")
 		inj[vj.Params[2]] = avNil
 		s := RunSCCP(vj, inj)
 		for _, sk := range sinks {
@@ -563,54 +565,24 @@ func c05(p *P) {
 		if okKinds {
 			r.OK("C05.R7", "validateByProgress: verdict kinds", p.c.Pos(fn.Pos()), "returns only nil / NoCommittee / NotRelevant / TooOld")
 		}
-		type cls struct {
-			name                   string
-			ge, gt, prev, eq bool
-		}
-		classes := []cls{{"≥c+L", true, true, false, false}, {"(c,c+L)", false, true, false, false}, {"=c", false, false, false, true}, {"=c-1", false, false, true, false}, {"<c-1", false, false, false, false}}
-		inst := `^\$1\.Vote\.Instance$`
-		cur := `InstanceProgress\.Instant\.ID`
-		curRe, curEnd := re(cur), re(cur+`$`)
 		bad, rows := 0, 0
 		var firstBad []string
-		phaseNames := map[int64]string{p.phase("QUALITY_PHASE"): "QUALITY", p.phase("DECIDE_PHASE"): "DECIDE"}
-		for _, c := range classes {
+		const C, L, R = 10, 5, 5
+		for _, I := range []int64{C + L + 1, C + L, C + L - 1, C + 1, C, C - 1, C - 2} {
 			for ph := int64(0); ph < 8; ph++ {
 				for _, curDecide := range []bool{true, false} {
-					for rr := 0; rr < 3; rr++ {
-						inj := map[ssa.Value]AV{}
+					for _, rr := range []int64{R + 1, R, R - 1, R - 2} {
+						inj := cmpUnder(fn, map[string]int64{"$1.Vote.Instance": I, "Instant.ID": C, "$0.committeeLookback": L, "$1.Vote.Round": rr, "Instant.Round": R})
 						set := func(vm VM) {
 							for k, v := range vm.Match(fn) {
 								inj[k] = v
 							}
 						}
-						// instance comparisons, by shape
-						allValues(fn, func(v ssa.Value) {
-							b, ok := v.(*ssa.BinOp)
-							if !ok {
-								return
-							}
-							x, y := canon(b.X), canon(b.Y)
-							switch {
-							case re(inst).MatchString(x) && curRe.MatchString(y) && strings.Contains(y, "committeeLookback") && b.Op.String() == ">=":
-								inj[b] = avBool(c.ge)
-							case re(inst).MatchString(x) && curEnd.MatchString(y) && b.Op.String() == ">":
-								inj[b] = avBool(c.gt)
-							case x == "($1.Vote.Instance + 1)" && curEnd.MatchString(y) && b.Op.String() == "==":
-								inj[b] = avBool(c.prev)
-							case re(inst).MatchString(x) && curEnd.MatchString(y) && b.Op.String() == "==":
-								inj[b] = avBool(c.eq)
-							case x == "$1.Vote.Round" && strings.HasSuffix(y, "Instant.Round") && b.Op.String() == ">=":
-								inj[b] = avBool(rr == 0)
-							case x == "($1.Vote.Round + 1)" && strings.HasSuffix(y, "Instant.Round") && b.Op.String() == "==":
-								inj[b] = avBool(rr == 1)
-							}
-						})
 						set(canonIs("", `^\$1\.Vote\.Phase$`, avInt(ph)))
 						if curDecide {
-							set(canonIs("", `InstanceProgress\.Instant\.Phase$`, avInt(p.phase("DECIDE_PHASE"))))
+							set(canonIs("", `Instant\.Phase$`, avInt(p.phase("DECIDE_PHASE"))))
 						} else {
-							set(canonIs("", `InstanceProgress\.Instant\.Phase$`, avInt(p.phase("PREPARE_PHASE"))))
+							set(canonIs("", `Instant\.Phase$`, avInt(p.phase("PREPARE_PHASE"))))
 						}
 						s := RunSCCP(fn, inj)
 						got := map[string]bool{}
@@ -619,31 +591,27 @@ func c05(p *P) {
 								got[errOf(ret)] = true
 							}
 						}
+						isDecide := ph == p.phase("DECIDE_PHASE")
+						isQuality := ph == p.phase("QUALITY_PHASE")
 						var want string
-						isDecide := phaseNames[ph] == "DECIDE"
-						isQuality := phaseNames[ph] == "QUALITY"
-						switch c.name {
-						case "≥c+L":
+						switch {
+						case I >= C+L:
 							want = "NoCommittee"
-						case "(c,c+L)":
+						case I > C:
 							want = "validate"
-						case "=c-1":
-							if isDecide {
-								want = "validate"
-							} else {
-								want = "TooOld"
-							}
-						case "<c-1":
-							want = "TooOld"
-						case "=c":
+						case I == C-1 && isDecide:
+							want = "validate"
+						case I == C:
 							switch {
 							case curDecide && !isDecide:
 								want = "NotRelevant"
-							case isQuality || isDecide || rr == 0 || rr == 1:
+							case isQuality || isDecide || rr >= R || rr+1 == R:
 								want = "validate"
 							default:
 								want = "NotRelevant"
 							}
+						default:
+							want = "TooOld"
 						}
 						rows++
 						var gl []string
@@ -654,7 +622,7 @@ func c05(p *P) {
 						if len(gl) != 1 || gl[0] != want {
 							bad++
 							if len(firstBad) < 5 {
-								firstBad = append(firstBad, fmt.Sprintf("instance %s, msg phase %d, current phase DECIDE=%v, round class %d: spec %s, code %v", c.name, ph, curDecide, rr, want, gl))
+								firstBad = append(firstBad, fmt.Sprintf("instance=c%+d (L=%d), msg phase %d, current phase DECIDE=%v, msg round=R%+d: spec %s, code %v", I-C, L, ph, curDecide, rr-R, want, gl))
 							}
 						}
 					}
